@@ -32,7 +32,7 @@ TRUSTED_BASE = RUN_TRUSTED + ["C05.sched: the 'real stream' of a run is what the
                               "hand-written models Model/Matcher.lean (descriptions, shared with C16/C17) and Model/Interleave.lean (M12c: threads taking atomic steps on a heap of "
                               "MatcherDescriptionTransformer objects); stream C05.desc: harness/props/c05.py + harness/sched/linesched.py (pre-emption between source lines of "
                               "lemoncheesecake/matching/**, not inside a line); the transformer objects a thread applies or writes are observed through the class's own __call__ / __setattr__"]
-ASSUMPTIONS = RUN_ASSUMPTIONS + ["schedule-independent features only (profile 'independent': no Abort*, no --stop-on-failure, no per-thread fixtures); sibling ranks pairwise distinct (declared tests always have distinct ranks; tests added with add_test_into_suite get one since fix a149e47)"]
+ASSUMPTIONS = RUN_ASSUMPTIONS + ["schedule-independent features only (profile 'independent': no Abort*, no --stop-on-failure, no per-thread fixtures); sibling ranks pairwise distinct (declared tests always have distinct ranks — the variants of one parametrized test too since fix N5: `rank + idx / (idx + 1)`, theorem C05Decl.loaded_suite_sibling_ranks_distinct; tests added with add_test_into_suite get one since fix a149e47)"]
 RULE = 'C05.desc: 2..4 real threads × 1..5 checks each (check_that / require_that / assert_that / check_that_in; matcher expressions of harness/gen/matchers.py incl. not_, composites, user-defined Matcher subclasses under not_/composites) under the seeded line scheduler over lemoncheesecake/matching/**; non-trivial = the recorded line trace switches threads inside the matching layer and ≥ 2 threads recorded a check.  C05.run / C05.sched: generated project (harness/run/gen.py) × nb_threads 1..8 × gate strategy (off/fifo/lifo/random) forcing completion orders; non-trivial = ≥ 2 tests, ≥ 1 body entered, ≥ 8 events; distinct = hash of the case (project + schedule parameters); C05 additionally needs N ≥ 2 and a completion order that differs from the declaration order'
 EXPLANATION = "Description building by several threads at once: threads that only touch transformer objects of their own compute under any schedule what they compute alone (LccModel.C05Desc, generic over the threads' code, instantiated on in-place negating description programs, refuted for a shared transformer); the hypothesis is observed on every real call. n_threads_equals_one_thread: the REAL streams of an N-thread run and of a 1-thread run (real thread ids, times, attachment names), both inside the discipline, whose re-labelled versions (thread ids through tables injective on (location, thread id) pairs or lookup-preserving; times and attachment counters changed, zero-ness of step-end times kept) have the same events and order every two dependent events alike, fold to reports with the same content up to timestamps and, under distinct sibling ranks, equal rank-sorted views up to timestamps (eraseTimes). Ingredients: projection lemma + swap-equivalence (report_independent_of_schedule), the writer commutes with re-labellings of the labels it only copies (only_timestamps_differ), thread ids are only keys of active_steps (thread_ids_are_only_keys). All hypotheses are decided by the verified boolean nThreadsCheckB on every pair (N-thread run, 1-thread run) of real fired streams (stream C05.sched). Every N-thread run is also replayed on the composed model (whose per-task outputs are functions of the project, not of the schedule) and compared by the oracle with the 1-thread run."
 
